@@ -247,6 +247,12 @@ def _heartbeat(chk, repo, folder, sc):
             uses_ok(st.value, node, "reported state", f.loc(st))
     chk.check(saw_127 and saw_copy, "R5", f"{NMT}:NmtMaster.on_heartbeat | both cases", f.loc(),
               "expected one store of 127 for boot-up and one store of the masked state otherwise")
+    for attr in ("_state", "_state_received"):
+        sn = [ff.cfg.node_of(s_) for s_ in attr_stores(f.node, attr)]
+        wit = must_pass(ff.cfg, lambda n: n in sn)
+        chk.check(wit is None, "R5", f"{NMT}:NmtMaster.on_heartbeat | every heartbeat sets {attr}", f.loc(),
+                  f"a heartbeat can leave self.{attr} untouched (e.g. when it repeats the previous value): after a command changed the local view "
+                  f"the reported state is not taken over: {path_text(wit) if wit else ''}")
     for st in attr_stores(f.node, "_state_received"):
         uses_ok(st.value, ff.cfg.node_of(st), "_state_received", f.loc(st))
     # callbacks get the masked value
